@@ -705,3 +705,38 @@ spec("C19", jobs=c19_jobs,
      rule="every schedule of the worker threads within the preemption bound, per (workers, trial count, element size); "
           "distinct_nontrivial = distinct (trial count, preemptions) outcome classes",
      assumptions=["scheduling points at trial entry/return only: the dispenser's fetch-and-add executes atomically between them"])
+
+
+# ----------------------------------------------------------------------------- C16
+def c16_jobs(tier):
+    def j(name, cfg="asan", **o):
+        return dict(name=name, harness="c16_dist", cfg=cfg, opts=o, bound_min=0, bound_max=0, deadline=2400,
+                    crash_is_violation=True, recycle=20000)
+    if tier == "quick":
+        return [j("tables", mode="tables"), j("lattice-16", "rel", mode="lattice", lbits=16), j("seq-K2", mode="seq", K=2),
+                j("seq-K2-O2", "rel", mode="seq", K=2)]
+    return [j("tables", mode="tables"), j("tables-O2", "rel", mode="tables"), j("lattice-20", "rel", mode="lattice", lbits=20),
+            j("seq-K3", "rel", mode="seq", K=3), j("seq-K2-asan", mode="seq", K=2)]
+
+
+spec("C16", jobs=c16_jobs,
+     technique="exhaustive enumeration of raw-generator word sequences (the generator is an enumerated environment via hook H2) against textbook reference constructions; exhaustive lattice over the raw word for single-draw samplers; exhaustive check of all 256 ziggurat layers and alias entries",
+     level_text="(i) Tables: for every one of the 256 layers of the build-time generated exponential and normal ziggurats: corner on the "
+                "pdf, nested, equal area, alias-table mass of every overhang equal to its exact share of the area outside the "
+                "rectangles (1e-9 / 1e-8), concavity bound valid, tail start consistent, tables linked into the library identical "
+                "to the generated ones. (ii) Lattice: for uniform, triangular, logistic, Pareto, dice, Bernoulli, loaded dice, alias "
+                "tables and both ziggurat hot paths, every raw word on a 2^16 (2^20) lattice plus the extremes: inside the support, "
+                "monotone, F(x(u)) = u to lattice resolution, discrete frequencies equal to the requested probabilities, boundary "
+                "parameters (min=mode, p=1, p=0, probability vectors summing to 1 +- 5e-4). (iii) Sequences: for 35 sampler/"
+                "parameter combinations of the multi-draw samplers, every sequence of K raw words over a 40-word adversarial "
+                "alphabet (extremes, a grid of the top bits, every ziggurat branch via the low byte): inside the support, terminates, "
+                "and equal (1e-12) to the textbook construction of the stated distribution from the same raw words (inversion, "
+                "Marsaglia-Tsang with the shape<1 boost everywhere, sums, Bernoulli sums).",
+     level_note="Trusted: the reference constructions and distribution functions in harness/c16_dist.c (written from the textbook "
+                "formulas), hook H2. NOT decided by this family: the literal convergence clause for rejection samplers is a limit "
+                "statement; what is decided is support on adversarial raw words, algorithmic equivalence with the standard "
+                "construction on every enumerated raw sequence, and exactness of the tables.",
+     budget=dict(quick=900, thorough=5400),
+     rule="tables: 256 layers x 2 distributions; lattice: 23 sampler/parameter sets x 2^lbits raw words; sequences: 35 sampler/"
+          "parameter sets x 40^K raw-word sequences; distinct_nontrivial = distinct returned values (sequences) / distinct outcome vectors",
+     assumptions=["draws beyond the K enumerated words follow one fixed pseudo-random continuation (same for library and reference)"])
